@@ -166,11 +166,15 @@ class _SortedKey:
     # from Ordering
     def got_pake(self, body):
         assert isinstance(body, bytes), type(body)
-        payload = bytes_to_dict(body)
-        if "pake_v1" in payload:
-            self.got_pake_good(hexstr_to_bytes(payload["pake_v1"]))
-        else:
+        try:
+            payload = bytes_to_dict(body)
+            msg2 = hexstr_to_bytes(payload["pake_v1"])
+        except Exception:
+            # any mailbox participant can post a "pake" phase: a body that is
+            # not JSON, not an object, or has no (hex) "pake_v1" is a bad PAKE
             self.got_pake_bad()
+            return
+        self.got_pake_good(msg2)
 
     @m.input()
     def got_pake_good(self, msg2):
@@ -196,8 +200,14 @@ class _SortedKey:
     @m.output()
     def compute_key(self, msg2):
         assert isinstance(msg2, bytes)
-        with self._timing.add("pake2", waiting="crypto"):
-            key = self._sp.finish(msg2)
+        try:
+            with self._timing.add("pake2", waiting="crypto"):
+                key = self._sp.finish(msg2)
+        except Exception:
+            # msg2 is not a valid SPAKE2 message (wrong side byte, not a
+            # group element, reflection): same verdict as any other bad PAKE
+            self._B.scared()
+            return
         # TODO: make B.got_key() an eventual send, since it will fire the
         # user/application-layer get_unverified_key() Deferred, and if that
         # calls back into other wormhole APIs, bad things will happen
